@@ -5,7 +5,7 @@ from vf.xh import Ob
 PREAMBLE = '''\
 import sys
 from vf import skel as _sk
-from checks.C25 import rt_ok, TEXTS, hole_ok, HALPH, SCAF
+from checks.C25 import rt_ok, rt_after_ok, TEXTS, hole_ok, HALPH, SCAF
 '''
 
 TEXTS = [
@@ -16,6 +16,8 @@ TEXTS = [
     "f\"\"", "f\"a\"", "f\"{x}\"", "f\"a{x}b\"", "f\"{x !r}\"", "f\"{x !s}\"", "f\"{x !a}\"", "f\"{x :>4}\"", "f\"{x !r :>4}\"", "f\"{x :{w}}\"", "f\"{x :{w}.{p}f}\"", "f\"{x :a{w}b{p}c}\"",
     "f\"{x = }\"", "f\"{x =}\"", "f\"{{}}\"", "f\"{(+ 1 2)}\"", "f\"{\"s\"}\"", "f\"{x :{y :{z}}}\"", "#[f[a{x}b]f]", "#[f[{x !r :>{w}}]f]", "#[f-a[{x}]f-a]", "f\"\\n{x}\\\"\"",
     "(defn f [a #* b #** c] \"doc\" (+ a 1))", "(setv #^ int x 1)", "(lfor x xs :if (> x 0) x)", "(match v [a #* _] a {\"k\" x #** r} r)", "(import a.b [c :as d])", "(.m o 1)", "(a.b.c 1)",
+    # (round 4) fields holding brace-initial forms, doubled braces and backslashes in format specs, @-initial unquote operands
+    "f\"{ {1 2} }\"", "f\"{ #{1} !r}\"", "f\"{x :a{{b}\"", "f\"{x :{{}}}\"", "#[f[{x :{{]f]", "f\"{x :}}a{{{w}}\"", "'(unquote @a.b)", "'(unquote @a)", "'~@a.b", "`(~ @a.b ~@ a.b)",
 ]
 
 HALPH = "a1 -.:\"\\]['`~{}\n#"
@@ -66,13 +68,47 @@ def _check_text(text):
     return None
 
 
+# texts with a recorded finding: one obligation each, so that a known finding never hides another text of a group
+SINGLE_TEXTS = ["f\"{x :\\\\n}\"", "f\"a\\\\N{x}\"", "#[f[{x :\\n}]f]", "f\"{x :\\t{w}}\""]
+
+
+class _Bad:
+    def __repr__(self):
+        raise KeyError("printer failure")
+
+
+def _check_after_failure(text):
+    """The round trip must also hold after an earlier hy.repr call failed half-way through a model."""
+    import hy
+
+    try:
+        hy.repr(hy.models.List([hy.models.Symbol("a"), hy.models.Expression([hy.models.Symbol("f"), _Bad()])]))
+        return "hy.repr of a model holding an object whose repr raises did not raise"
+    except KeyError:
+        pass
+    r = _check_text(text)
+    return None if r is None else "after a failed hy.repr call: " + r
+
+
+def rt_after_ok(i, why=None):
+    from vf import skel
+
+    if why is None and skel.EXPLAIN[0]:
+        del skel.LAST_WHY[:]
+        why = skel.LAST_WHY
+    r = strsym.untraced(_check_after_failure, TEXTS[i])
+    if r is not None and why is not None:
+        why.append(r)
+    return r is None
+
+
 def rt_ok(i, why=None):
     from vf import skel
 
     if why is None and skel.EXPLAIN[0]:
         del skel.LAST_WHY[:]
         why = skel.LAST_WHY
-    r = strsym.untraced(_check_text, TEXTS[i])
+    r = strsym.untraced(_check_text, TEXTS[i] if i >= 0 else SINGLE_TEXTS[-1 - i])
     if r is not None and why is not None:
         why.append(r)
     return r is None
@@ -103,6 +139,11 @@ def spec(tier, seed):
         n = min(chunk, len(TEXTS) - c0)
         L = ["def %s(i: int) -> bool:" % fn, '    """', "    post: _", '    """', "    return rt_ok(%d + _sk.box(i, 0, %d))" % (c0, n - 1)]
         obs.append(Ob(fn, "\n".join(L), sample="texts %r" % (TEXTS[c0:c0 + n],), group="texts"))
+    for k, t in enumerate(SINGLE_TEXTS):
+        L = ["def k%d(i: int) -> bool:" % k, '    """', "    post: _", '    """', "    return rt_ok(%d)" % (-1 - k)]
+        obs.append(Ob("k%d" % k, "\n".join(L), sample="text %r" % (t,), group="texts"))
+    L = ["def tafter(i: int) -> bool:", '    """', "    post: _", '    """', "    return rt_after_ok(_sk.box(i, 0, %d))" % (len(TEXTS) - 1)]
+    obs.append(Ob("tafter", "\n".join(L), sample="each text again after a hy.repr call that failed inside a model (a printer raising)", group="after-failure"))
     maxlen = 2 if tier == "quick" else 3
     for si, sc in enumerate(SCAF):
         obs += strsym.string_box_obs("s%d_" % si, "hole_ok(%d, {s})" % si, "HALPH", HALPH, maxlen, "scaffold",
